@@ -191,58 +191,55 @@ func (c *Check) readerFraming(rule string) {
 	allFF := func(e *Expr) bool {
 		return e.Op == "ld" && e.Args[0].Op == "ia" && e.Args[0].Args[0].Op == "arr" && e.Args[0].Args[0].C == 19
 	}
+	// events of the whole run (offers are followed by a return, so the union
+	// of the may-sets at the returns covers them); helpers are inlined, so the
+	// events are seen wherever the select physically lives
+	readerEvents := func(st *State, desc string, args []*Expr) string {
+		switch desc {
+		case "offer:readerErrCh":
+			ec := p.classifyErr(st, args[0])
+			if ec.Notif != nil {
+				cc, ok1 := ec.Notif.Code.IsConst()
+				sb, ok2 := ec.Notif.Sub.IsConst()
+				if ok1 && ok2 {
+					return fmt.Sprintf("%d,%d", cc, sb)
+				}
+				return "?"
+			}
+			return "plain"
+		case "io.ReadFull":
+			if len(args) == 2 {
+				if r, _, _ := sliceParts(args[1]); r.Op == "makeslice" {
+					return "body"
+				}
+				return "header"
+			}
+		}
+		return ""
+	}
+	allEvents := func(a *Analysis) map[string]bool {
+		out := map[string]bool{}
+		for _, r := range a.Returns {
+			for k := range r.State.may {
+				out[k] = true
+			}
+		}
+		return out
+	}
 	mustNot := func(a *Analysis, pred func(code, sub int64) bool) (bool, string) {
-		// every send on readerErrCh of a notificationError with (code,sub)
-		bad := ""
-		for _, b := range fn.Blocks {
-			for _, in := range b.Instrs {
-				sel, ok := in.(*ssa.Select)
-				if !ok {
-					continue
-				}
-				for _, st := range a.At[in] {
-					for _, ss := range sel.States {
-						if ss.Dir != types.SendOnly {
-							continue
-						}
-						ec := p.classifyErr(st, a.exprOf(st, nil, ss.Send))
-						if ec.Notif != nil {
-							cc, _ := ec.Notif.Code.IsConst()
-							sb, _ := ec.Notif.Sub.IsConst()
-							if pred(cc, sb) {
-								bad = fmt.Sprintf("(%d,%d) offered at %s", cc, sb, p.InstrPos(in))
-							}
-						}
-					}
-				}
+		for ev := range allEvents(a) {
+			var cc, sb int64
+			if n, _ := fmt.Sscanf(ev, "offer:readerErrCh(%d,%d)", &cc, &sb); n == 2 && pred(cc, sb) {
+				return false, fmt.Sprintf("(%d,%d) offered", cc, sb)
+			}
+			if ev == "offer:readerErrCh(?)" {
+				return false, "a notification with non-constant code offered"
 			}
 		}
-		return bad == "", bad
+		return true, ""
 	}
-	bodyReadReachable := func(a *Analysis) bool {
-		for _, cl := range rf {
-			for _, st := range a.At[cl.(ssa.Instruction)] {
-				if r, _, _ := sliceParts(a.argExprs(st, nil, cl.Common())[1]); r.Op == "makeslice" {
-					return true
-				}
-			}
-		}
-		return false
-	}
-	msgSendReachable := func(a *Analysis) bool {
-		for _, b := range fn.Blocks {
-			for _, in := range b.Instrs {
-				if sel, ok := in.(*ssa.Select); ok && len(a.At[in]) > 0 {
-					for _, ss := range sel.States {
-						if ss.Dir == types.SendOnly && chanFieldName(ss.Chan) == "readerMsgCh" {
-							return true
-						}
-					}
-				}
-			}
-		}
-		return false
-	}
+	bodyReadReachable := func(a *Analysis) bool { return allEvents(a)["call:io.ReadFull(body)"] }
+	msgSendReachable := func(a *Analysis) bool { return allEvents(a)["offer:readerMsgCh"] }
 	ffHook := rangeHook(allFF, isConst(255))
 	for _, w := range []struct {
 		name string
@@ -284,6 +281,7 @@ func (c *Check) readerFraming(rule string) {
 	} {
 		b := NewAnalysis(p, fn)
 		b.AtomHook = w.hook
+		b.EventArgs = readerEvents
 		b.Run()
 		if len(b.Undecided) > 0 {
 			c.undecided("C08.1 header-validation", "fsm.read", w.name, p.Pos(fn.Pos()), b.Undecided[0])
@@ -295,33 +293,20 @@ func (c *Check) readerFraming(rule string) {
 	_ = lenTerm
 
 	// marker loop covers indices [0,16)
-	okLoop := false
-	for _, b := range fn.Blocks {
-		for _, in := range b.Instrs {
-			phi, ok := in.(*ssa.Phi)
-			if !ok {
-				break
-			}
-			if lo, hi, okc := countedLoop(phi); okc && lo == 0 && hi == 16 {
-				// the comparison header[i] != 0xFF must be evaluated on every iteration
-				for _, r := range *phi.Referrers() {
-					if ia, ok := r.(*ssa.IndexAddr); ok && ia.Index == ssa.Value(phi) {
-						// every back edge is dominated by this load's block
-						dom := true
-						for _, pr := range b.Preds {
-							if b.Dominates(pr) && !ia.Block().Dominates(pr) {
-								dom = false
-							}
-						}
-						if dom {
-							okLoop = true
-						}
+	okLoop := markerLoopCovers(fn, func(ia *ssa.IndexAddr) bool {
+		// the octet is loaded and compared
+		for _, r := range *ia.Referrers() {
+			if ld, ok := r.(*ssa.UnOp); ok {
+				for _, rr := range *ld.Referrers() {
+					if bo, ok := rr.(*ssa.BinOp); ok && (bo.Op == token.NEQ || bo.Op == token.EQL) {
+						return true
 					}
 				}
 			}
 		}
-	}
-	c.require(okLoop, "C08.1 header-validation", "fsm.read", "marker loop", p.Pos(fn.Pos()), "a counted loop i=0..15 compares header[i] on every iteration")
+		return false
+	})
+	c.require(okLoop, "C08.1 header-validation", "fsm.read", "marker loop", p.Pos(fn.Pos()), "a step-1 loop over indices 0..15 compares every marker octet of the header")
 
 	// after offering an error the reader returns without reading again
 	for _, b := range fn.Blocks {
@@ -521,4 +506,194 @@ func (c *Check) updateBodyPrivate(rule string) {
 	c.floor(rule, n, 1, "updateMessage-producing returns of messageFromBytes")
 	c.require(copied || perIter, rule, "messageFromBytes", "UPDATE body ownership", p.Pos(fn.Pos()),
 		fmt.Sprintf("the delivered body is a fresh copy (copy=%v) or the reader's buffer is allocated per message (per-message=%v); otherwise the next read overwrites what the handler holds", copied, perIter))
+}
+
+// constLen resolves len(v) when it is a constant by construction.
+func constLen(v ssa.Value) (int64, bool) {
+	switch x := v.(type) {
+	case *ssa.Slice:
+		lo := int64(0)
+		if x.Low != nil {
+			c, ok := x.Low.(*ssa.Const)
+			if !ok || c.Value == nil {
+				return 0, false
+			}
+			lo = c.Int64()
+		}
+		if x.High != nil {
+			c, ok := x.High.(*ssa.Const)
+			if !ok || c.Value == nil {
+				return 0, false
+			}
+			return c.Int64() - lo, true
+		}
+		if n, ok := constLen(x.X); ok {
+			return n - lo, true
+		}
+	case *ssa.Alloc:
+		if at, ok := x.Type().Underlying().(*types.Pointer).Elem().Underlying().(*types.Array); ok {
+			return at.Len(), true
+		}
+	case *ssa.MakeSlice:
+		if c, ok := x.Len.(*ssa.Const); ok && c.Value != nil {
+			return c.Int64(), true
+		}
+	}
+	if pt, ok := v.Type().Underlying().(*types.Pointer); ok {
+		if at, ok := pt.Elem().Underlying().(*types.Array); ok {
+			return at.Len(), true
+		}
+	}
+	return 0, false
+}
+
+func constOrLen(v ssa.Value) (int64, bool) {
+	if c, ok := v.(*ssa.Const); ok && c.Value != nil {
+		return c.Int64(), true
+	}
+	if cl, ok := v.(*ssa.Call); ok {
+		if b, isB := cl.Call.Value.(*ssa.Builtin); isB && b.Name() == "len" {
+			return constLen(cl.Call.Args[0])
+		}
+	}
+	return 0, false
+}
+
+// loopSpan returns the half-open interval of values an index takes in a
+// step-1 counted loop, for the two shapes the compiler front end produces:
+//   i := c0; i < N; i++          (idx is the phi)
+//   for i := range x / for i, v := range x   (idx is phi+1 with phi starting at -1)
+// together with the loop header block.
+func loopSpan(idx ssa.Value) (lo, hi int64, head *ssa.BasicBlock, ok bool) {
+	if phi, isPhi := idx.(*ssa.Phi); isPhi {
+		if l, h, okc := countedLoopGen(phi); okc {
+			return l, h, phi.Block(), true
+		}
+		return 0, 0, nil, false
+	}
+	bo, isB := idx.(*ssa.BinOp)
+	if !isB || bo.Op != token.ADD {
+		return 0, 0, nil, false
+	}
+	phi, isPhi := bo.X.(*ssa.Phi)
+	one, isC := bo.Y.(*ssa.Const)
+	if !isPhi || !isC || one.Value == nil || one.Int64() != 1 || len(phi.Edges) != 2 {
+		return 0, 0, nil, false
+	}
+	b := phi.Block()
+	start := int64(0)
+	okShape := true
+	for i, e := range phi.Edges {
+		if b.Dominates(b.Preds[i]) {
+			if e != ssa.Value(bo) {
+				okShape = false
+			}
+		} else if c, isC := e.(*ssa.Const); isC && c.Value != nil {
+			start = c.Int64() + 1
+		} else {
+			okShape = false
+		}
+	}
+	if !okShape {
+		return 0, 0, nil, false
+	}
+	iff, isIf := b.Instrs[len(b.Instrs)-1].(*ssa.If)
+	if !isIf {
+		return 0, 0, nil, false
+	}
+	cmp, isB := iff.Cond.(*ssa.BinOp)
+	if !isB || cmp.Op != token.LSS || cmp.X != ssa.Value(bo) {
+		return 0, 0, nil, false
+	}
+	n, okN := constOrLen(cmp.Y)
+	if !okN {
+		return 0, 0, nil, false
+	}
+	return start, n, b, true
+}
+
+// countedLoopGen is countedLoop with a bound that may be a constant len().
+func countedLoopGen(phi *ssa.Phi) (lo, hi int64, ok bool) {
+	if l, h, okc := countedLoop(phi); okc {
+		return l, h, true
+	}
+	b := phi.Block()
+	if len(phi.Edges) != 2 {
+		return 0, 0, false
+	}
+	var init *ssa.Const
+	var step ssa.Value
+	for i, e := range phi.Edges {
+		if b.Dominates(b.Preds[i]) {
+			step = e
+		} else if cst, isC := e.(*ssa.Const); isC {
+			init = cst
+		}
+	}
+	if init == nil || step == nil || init.Value == nil {
+		return 0, 0, false
+	}
+	bo, isB := step.(*ssa.BinOp)
+	if !isB || bo.Op != token.ADD || bo.X != ssa.Value(phi) {
+		return 0, 0, false
+	}
+	one, isC := bo.Y.(*ssa.Const)
+	if !isC || one.Value == nil || one.Int64() != 1 {
+		return 0, 0, false
+	}
+	iff, isIf := b.Instrs[len(b.Instrs)-1].(*ssa.If)
+	if !isIf {
+		return 0, 0, false
+	}
+	cmp, isB := iff.Cond.(*ssa.BinOp)
+	if !isB || cmp.Op != token.LSS || cmp.X != ssa.Value(phi) {
+		return 0, 0, false
+	}
+	n, okN := constOrLen(cmp.Y)
+	if !okN {
+		return 0, 0, false
+	}
+	return init.Int64(), n, true
+}
+
+// rootAlloc follows slices to the allocation a buffer value is rooted at.
+func rootAlloc(v ssa.Value) ssa.Value {
+	for i := 0; i < 6; i++ {
+		switch x := v.(type) {
+		case *ssa.Slice:
+			v = x.X
+		default:
+			return v
+		}
+	}
+	return v
+}
+
+// markerLoopCovers: some IndexAddr into a buffer rooted at a 19-byte array
+// uses an index that spans exactly [0,16) and sits on every iteration of its
+// loop; `use` decides whether the addressed octet is used as required.
+func markerLoopCovers(fn *ssa.Function, use func(ia *ssa.IndexAddr) bool) bool {
+	found := false
+	allInstrs(fn, func(in ssa.Instruction) {
+		ia, ok := in.(*ssa.IndexAddr)
+		if !ok {
+			return
+		}
+		lo, hi, head, okS := loopSpan(ia.Index)
+		if !okS || lo != 0 || hi != 16 {
+			return
+		}
+		if n, okN := constLen(rootAlloc(ia.X)); !okN || n != 19 {
+			return
+		}
+		for _, pr := range head.Preds {
+			if head.Dominates(pr) && !ia.Block().Dominates(pr) {
+				return
+			}
+		}
+		if use(ia) {
+			found = true
+		}
+	})
+	return found
 }
